@@ -319,7 +319,7 @@ func c08Run(c *core.Ctx) {
 						cs := c08Case{ts.Name, td.Name, []uint64{math.Float64bits(f)}, chs, pos, lens}
 						fs := c08EvalCase(cs)
 						if len(fs) == 0 {
-							c.InternalError("%s: failure %s at input %v (channels %d, position %d) seen in the sweep does not reproduce in isolation", name, kind, f, p.Ch, p.Idx)
+							fs = []F{histDep(name, fmt.Sprintf("%s: failure %s at input %v (channels %d, position %d) seen in the sweep does not reproduce in isolation", name, kind, f, p.Ch, p.Idx))}
 						}
 						c.Fail(cs, fs...)
 					}
@@ -330,7 +330,7 @@ func c08Run(c *core.Ctx) {
 						cs := c08Case{ts.Name, td.Name, []uint64{math.Float64bits(dm.toF(pk)), math.Float64bits(dm.toF(k))}, chs, pos, lens}
 						fs := c08EvalCase(cs)
 						if len(fs) == 0 {
-							c.InternalError("%s: order violation seen in the sweep does not reproduce in isolation (%v->%d, %v->%d)", name, dm.toF(pk), po, dm.toF(k), o)
+							fs = []F{histDep(name, fmt.Sprintf("%s: order violation seen in the sweep does not reproduce in isolation (%v->%d, %v->%d)", name, dm.toF(pk), po, dm.toF(k), o))}
 						}
 						c.Fail(cs, fs...)
 					}
